@@ -329,6 +329,13 @@ def ops(rng):
         return (QuadricCollection if (e.free_indices or f.free_indices) else Quadric).from_planes(e, f)
     add("quadric.from_planes", from_planes, plane_pair, nomix=True)
     add("polygon3.expand_dims-contains", lambda t, p: (t.expand_dims(0).contains(p) if t.free_indices else t.contains(p)), poly3, nomix=True, squeeze0=True)
+    def pencil3():
+        while True:
+            o, p, q = pt3(), pt3(), pt3()
+            if np.linalg.matrix_rank(np.stack([np.asarray(x.normalized_array, dtype=float) for x in (o, p, q)])) == 3:
+                return g.Line(o, p), g.Line(o, q)
+    # the two bisectors are returned in an order that depends on the square root's branch: compare as a set
+    add("angle_bisectors3", lambda l, m: list(g.angle_bisectors(l, m)), pencil3, tol=1e-6, nomix=True, as_set=True)
     add("join-pp", lambda p, q: g.join(p, q), lambda: (lambda p: (p, g.Point(np.asarray(p.normalized_array) + np.array([1.0, rat(rng), 0.0]))))(pt2(1.0)))
     add("meet-ll", lambda l, m: g.meet(l, m), lambda: (lambda l: (l, g.Line(np.asarray(l.array) + np.array([1.0, -1.0, rat(rng)]))))(line2()))
     return T
